@@ -1,6 +1,7 @@
 CONSTANTS
   Atoms = {"p", "q", "r"}
   MaxDepth = 2
+  Tri = TRUE
 INIT Init
 NEXT Next
 INVARIANTS RoundTrip Idempotent MeaningKept ParserNormal
